@@ -1442,8 +1442,11 @@ class DMLQuery(object):
                 if not val_mgr.changed and not isinstance(col, columns.Counter):
                     continue
 
-                static_changed_only = static_changed_only and col.static
+                assignments_before = len(statement.assignments)
                 statement.add_update(col, val, previous=val_mgr.previous_value)
+                if len(statement.assignments) > assignments_before:
+                    # (a map whose only change is removed keys adds no assignment here)
+                    static_changed_only = static_changed_only and col.static
                 updated_columns.add(col.db_field_name)
 
         if statement.assignments:
